@@ -10,7 +10,10 @@ Init == \E s \in Starts : TraceInit(s) /\ seen = [k \in 1..8 |-> {}]
 
 Frag == /\ IsEvent("frag")
         /\ LET f == [d |-> Ev.d, off |-> Ev.off, len |-> Ev.len, mf |-> Ev.mf]
-               ref == A!Step(seen, Ev.d, f) IN
+               \* mode same_key: the datagrams follow one another under ONE identification and address pair (the key is reused after
+               \* completion), so they share a reassembly context
+               ctx == IF Cfg.mode = "same_key" THEN 1 ELSE Ev.d
+               ref == A!Step(seen, ctx, f) IN
            /\ seen' = ref.seen
            /\ Ev.status = ref.status
            /\ ref.status = "NOT_FRAGMENTED" => (~("untouched" \in DOMAIN Ev) \/ Ev.untouched)
